@@ -1,12 +1,14 @@
 SPECIFICATION Spec
 CONSTANTS
-  Ops = {1, 2, 3}
-  MaxList = 3
-  Wallets = {"w1", "w2"}
+  Ops = {1, 2}
+  MaxList = 2
+  Wallets = {"w1"}
   Hashes = {"h1", "h2"}
   Seeds = {"s1", "s2"}
   CallSeeds = {"s1"}
   F = 3
-  Blocks = {0, 3, 12, 13, 24}
+  Blocks = {0, 3, 12}
   MaxCalls = 2
-INVARIANTS TypeOK LeaderIsOperator LeaderIgnoresOrderAndRepetition LeaderRankDependsOnSeedAndSize ChecklistShape HeartbeatBySeedOnly ChecklistDeterministic SeedDeterministic
+  Execs = {"e1", "e2"}
+  Stateless = TRUE
+INVARIANTS TypeOK ExecCounts LeaderIsOperator LeaderIgnoresOrderAndRepetition LeaderHistoryIndependent LeaderIdempotent LeaderRankDependsOnSeedAndSize ChecklistShape HeartbeatBySeedOnly ChecklistHistoryIndependent SeedHistoryIndependent
